@@ -208,7 +208,10 @@ fn site_of(input: &Sx) -> String {
         _ => {
             let op = a[0].head().unwrap().1;
             let name = op_site(op[0].atom().unwrap());
-            if sel_malformed(op, a[2].head().unwrap().1) { format!("{name}/malformed") } else { name.to_string() }
+            let pops = a[2].head().unwrap().1;
+            if sel_malformed(op, pops) { format!("{name}/malformed") }
+            else if sel_extreme(op, pops) { format!("{name}/extreme") }
+            else { name.to_string() }
         }
     }
 }
@@ -230,6 +233,17 @@ fn sel_malformed(op: &[Sx], pops: &[Sx]) -> bool {
         "roulette" | "sus" => { let o = op[2].float().unwrap(); !(o >= 0.0) || !o.is_finite() }
         "exprank" => { let b = op[2].float().unwrap(); !(f64::EPSILON..1.0).contains(&b) }
         "derand" | "debest" | "dectb" => { let y = op[1].nat().unwrap(); y != 1 && y != 2 }
+        _ => false,
+    }
+}
+
+/// Finite values so large that the weight arithmetic overflows to inf / NaN: outside the
+/// exact-arithmetic theorems ("up to rounding"); only the model's prediction is compared.
+fn sel_extreme(op: &[Sx], pops: &[Sx]) -> bool {
+    let big = |v: f64| v.is_finite() && v.abs() > 1e150;
+    if pops[0].head().unwrap().1.iter().any(|i| i.items().unwrap()[1].float().map(big).unwrap_or(false)) { return true; }
+    match op[0].atom().unwrap() {
+        "roulette" | "sus" => big(op[2].float().unwrap()),
         _ => false,
     }
 }
@@ -355,6 +369,25 @@ fn main() {
                    "(op linrank 100)".into(), format!("(op exprank 100 {})", fx(0.5))] {
             emit(tagged("freq", [op, o.clone(), "(draws 6000)".into(), format!("(rng seed {})", rng.below(1 << 32))]));
         }
+    }
+    // 5b. extreme finite values (overflow in the weight arithmetic); only compared with the model
+    let huge = [1e308, -1e308, 5e307, 1.0, 0.0, -1.0, 1.7e308];
+    for _ in 0..(if a.thorough { 3000 } else { 400 }) {
+        let size = 1 + rng.below(6) as usize;
+        let objs: Vec<Option<f64>> = (0..size).map(|_| Some(*rng.pick(&huge))).collect();
+        let st = tagged("stack", [pop_str(0, &objs)]);
+        let n = rng.below(5);
+        let off = *rng.pick(&[0.0, 1.0, 1e308]);
+        let op = match rng.below(7) {
+            0 => format!("(op roulette {n} {})", fx(off)),
+            1 => format!("(op sus {n} {})", fx(off)),
+            2 => format!("(op linrank {n})"),
+            3 => format!("(op exprank {n} {})", fx(0.5)),
+            4 => format!("(op tournament {n} {})", 1 + rng.below(size as u64)),
+            5 => format!("(op iwo 1 4)"),
+            _ => format!("(op debest 1)"),
+        };
+        emit(tagged("sel", [op, format!("(rng seed {})", rng.below(1 << 32)), st]));
     }
     // 6. malformed stream (outside the quantifier): unevaluated members, empty stack, negative / NaN
     //    offset, base outside (0,1), y outside {1,2}
